@@ -19,7 +19,7 @@ theorem Spec.mono {α : Type} {p : Prog α} {R R' : α → AS → AS → Prop} (
     (hr : ∀ x a a', a.σ.NoEof → R x a a' → R' x a a') : Spec p R' := by
   intro s hw hl
   obtain ⟨w, r⟩ := h s hw hl
-  exact ⟨w, hr _ _ _ (abs_noEof s) r⟩
+  exact ⟨w, hr _ _ _ (abs_noEof hw) r⟩
 
 theorem Spec.pure {α : Type} (x : α) : Spec (Pure.pure x : Prog α) (fun y a a' => y = x ∧ a' = a) := by
   intro s hw _
